@@ -44,10 +44,10 @@ type callPlan struct {
 }
 
 type wcfg struct {
-	gate int // 0 pass, 1 hold until released or the deadline is armed, 2 hold until released
-	rel  chan struct{}
-	nest int // aborter id run from inside the socket write (same goroutine), 0: none
-	in   chan struct{}
+	gate     int // 0 pass, 1 hold until released or the deadline is armed, 2 hold until released
+	rel      chan struct{}
+	nest     int // aborter id run from inside the socket write (same goroutine), 0: none
+	in       chan struct{}
 	nestDone chan struct{}
 }
 
@@ -335,6 +335,29 @@ func (r *runner) write(i int, mode string, h int, ctx context.Context) {
 	r.logEv("wr%d", i)
 }
 
+var muxStackBuf = make([]byte, 1<<16)
+
+// muxGoroutines counts the context-watcher goroutines of writeToContext that are still alive.
+func muxGoroutines() int {
+	for {
+		n := runtime.Stack(muxStackBuf, true)
+		if n < len(muxStackBuf) {
+			cnt := 0
+			for _, blk := range strings.Split(string(muxStackBuf[:n]), "\n\n") {
+				if k := strings.Index(blk, "created by "); k >= 0 {
+					blk = blk[:k]
+				}
+				// only the watcher goroutines writeToContext starts for cancellable contexts (the read worker lives as long as the mux)
+				if strings.Contains(blk, "(*UDPMuxDefault).writeToContext.func") && !strings.Contains(strings.SplitN(blk, "\n", 2)[0], "[running]") {
+					cnt++
+				}
+			}
+			return cnt
+		}
+		muxStackBuf = make([]byte, 2*len(muxStackBuf))
+	}
+}
+
 func decodeWord(v uint64) (cnt uint64, blk, dl bool) {
 	b, d, m := ice.VerifMuxWriteStateBits()
 	return v & m, v&b != 0, v&d != 0
@@ -547,10 +570,12 @@ start:
 	}
 	runtime.GOMAXPROCS(prevProcs)
 	// watcher goroutines of context writes are done when the goroutine count is back at the baseline
-	for k := 0; k < 4000 && runtime.NumGoroutine() > baseline; k++ {
+	// (the process-wide count alone can drop to the baseline because an unrelated runtime goroutine exited:
+	// the goroutines inside UDPMuxDefault code are counted from their stacks as well)
+	for k := 0; k < 4000 && (runtime.NumGoroutine() > baseline || muxGoroutines() > 0); k++ {
 		time.Sleep(250 * time.Microsecond)
 	}
-	if runtime.NumGoroutine() > baseline {
+	if runtime.NumGoroutine() > baseline || muxGoroutines() > 0 {
 		stuck = true
 	}
 	sock.mu.Lock()
